@@ -10,7 +10,7 @@ EXHAUSTIVE = True
 CHUNK = 1
 CASE_TIMEOUT = 900
 RULE = ("deviation-bounded exploration around base programs: 11 definition sets (two of them erroneous: undefined name, division by zero) (chain, fan-in, fan-out, diamonds, label-valued, "
-        "left-multiplied, mixed) x uses in 15 consumer positions (.word .byte immediate index absolute relative branch .blkb .repeat "
+        "left-multiplied, mixed) x uses in 17 consumer positions (.word .byte immediate index absolute relative branch .blkb .repeat "
         ".align '. =' skip <n> %n .dword link-expression) x 2-3 link regimes; for each base program every permutation of its "
         "definitions, every single definition moved to every top-level position (deviation 1) and, in thorough, every pair moved "
         "(deviation 2); alias/additive chains of depth 1..300 and non-linear chains of depth 1..30 in forward, backward and use-first "
@@ -58,14 +58,14 @@ USES = [
     ("word", ".word d"), ("byte", ".byte d & 177"), ("imm", "mov #d, r0"), ("index", "mov d(r1), r0"), ("abs", "clr @#d"),
     ("rel", "clr d"), ("branch", "br .+<d&6>+2"), ("blkb", ".blkb d & 7"), ("repeat", ".repeat d & 3 { nop }"),
     ("align", ".align <d & 3> + 1"), ("skip", ". = .+<d & 7>"), ("angle", ".ascii <d & 177>"), ("regnum", "mov %<d & 7>, r0"),
-    ("dword", ".dword d * 2"), ("two", "mov #c, b(r2)"),
+    ("dword", ".dword d * 2"), ("two", "mov #c, b(r2)"), ("bare", "d"), ("bare-list", "d, c"),
 ]
 REGIMES = ["first", "none", "last"]
 
 
 def bound(tier):
     return "11 definition sets (two of them erroneous: undefined name, division by zero) x %s use sets x regimes; all permutations + deviation %d; chains to depth 300/30; practice: %s definitions per program moved" % (
-        "all pairs of 15" if tier == "thorough" else "15 singles + 15 adjacent pairs", 2 if tier == "thorough" else 1, "all" if tier == "thorough" else "<= 24")
+        "all pairs of 17" if tier == "thorough" else "17 singles + 17 adjacent pairs", 2 if tier == "thorough" else 1, "all" if tier == "thorough" else "<= 24")
 
 
 def cases(tier):
@@ -93,7 +93,7 @@ def program(stmts, reg, uses_skip):
     return pre + "lbl: nop\n" + "\n".join(stmts) + "\n.even\n.word a, b, c, d\nlbe: nop\n" + post
 
 
-def check_variants(r, base_key, variants, anchor_vals, tree=None, what=""):
+def check_variants(r, base_key, variants, anchor_vals, tree=None, what="", mech=""):
     """variants: list of (tag, text). All must agree; the first one is the base order."""
     outs = []
     for tag, text in variants:
@@ -112,7 +112,7 @@ def check_variants(r, base_key, variants, anchor_vals, tree=None, what=""):
     for tag, text, o in outs[1:]:
         k2 = (o.status, o.base, o.code, tuple(o.error_kinds()))
         if k2 != refk and o.status not in ("crash", "hang", "silent-fail"):
-            r.violation("order-dependent:%s-vs-%s" % (ref.status, o.status), "moving definitions changed the result %s (%s)" % (what, tag),
+            r.violation("order-dependent:%s-vs-%s%s" % (ref.status, o.status, mech), "moving definitions changed the result %s (%s)" % (what, tag),
                         {"k": "pair", "a": outs[0][1], "b": text}, ref.brief(), o.brief())
             break
     if anchor_vals is not None and ref.status == "ok":
@@ -188,7 +188,8 @@ def check(case, r, tier):
                 lbe = base + len(o.code) - 2
                 vals = dvalues(ds, lbl, lbe)
                 anchor = [vals[n] for n in "abcd"]
-            check_variants(r, (ds, tuple(case["uses"]), reg), variants, anchor, what="(set %s, uses %s, regime %s)" % (ds, uses, reg))
+            mech = ":bare-name-statement" if any(USES[i][0] == "bare" for i in case["uses"]) else ""
+            check_variants(r, (ds, tuple(case["uses"]), reg), variants, anchor, what="(set %s, uses %s, regime %s)" % (ds, uses, reg), mech=mech)
         return
     if k == "chain":
         for depth in case["depths"]:
